@@ -139,6 +139,29 @@ func BuildClient(c ClientCfg, dial mail.DialContextFunc, logger mlog.Logger) (*m
 		opts = append(opts, mail.WithSMTPAuthCustom(smtp.ScramSHA1Auth(c.User, c.Pass)))
 	case "CUSTOM-SCRAM-SHA-256":
 		opts = append(opts, mail.WithSMTPAuthCustom(smtp.ScramSHA256Auth(c.User, c.Pass)))
+	case "CUSTOMNOENC-THEN-PLAIN", "CUSTOMNOENC-THEN-LOGIN":
+		// the caller first configured a custom mechanism that permits clear text and then an
+		// ordinary auth type: the later option is the one in force
+		t := mail.SMTPAuthPlain
+		var a smtp.Auth = smtp.PlainAuth("", c.User, c.Pass, c.host(), true)
+		if strings.HasSuffix(c.AuthType, "LOGIN") {
+			t, a = mail.SMTPAuthLogin, smtp.LoginAuth(c.User, c.Pass, c.host(), true)
+		}
+		opts = append(opts, mail.WithSMTPAuthCustom(a), mail.WithSMTPAuth(t), mail.WithUsername(c.User), mail.WithPassword(c.Pass))
+	case "NOENC-THEN-PLAIN", "NOENC-THEN-LOGIN":
+		// the Client once had a NOENC auth type and was then switched to the ordinary one
+		opts = append(opts, mail.WithSMTPAuth(mail.SMTPAuthPlainNoEnc), mail.WithUsername(c.User), mail.WithPassword(c.Pass))
+		t := mail.SMTPAuthPlain
+		if strings.HasSuffix(c.AuthType, "LOGIN") {
+			t = mail.SMTPAuthLogin
+		}
+		prev := after
+		after = func(cl *mail.Client) {
+			if prev != nil {
+				prev(cl)
+			}
+			cl.SetSMTPAuth(t)
+		}
 	default:
 		opts = append(opts, mail.WithSMTPAuth(mail.SMTPAuthType(c.AuthType)), mail.WithUsername(c.User), mail.WithPassword(c.Pass))
 	}
